@@ -7,7 +7,7 @@ use marrow::{
 };
 
 use crate::internal::{
-    error::{set_default, try_, Context, ContextSupport, Error, Result},
+    error::{fail, set_default, try_, Context, ContextSupport, Error, Result},
     utils::{
         array_ext::{ArrayExt, ScalarArrayExt},
         NamedType,
@@ -113,6 +113,9 @@ where
 
             use chrono::naive::NaiveTime;
             let time = v.parse::<NaiveTime>()?;
+            if time.nanosecond() >= 1_000_000_000 {
+                fail!("Leap seconds are not supported in time arrays");
+            }
             let timestamp = i64::from(time.num_seconds_from_midnight()) * seconds_factor
                 + i64::from(time.nanosecond()) / nanoseconds_factor;
 
